@@ -752,12 +752,29 @@ def run(ctx):
         for lp in [x for x in hirq.walk(ad.hir["body"]) if x.get("k") == "block" and x.get("stmts")]:
             body_ = lp
             stmts = lp["stmts"]
-            adv = [st for st in stmts if st.get("k") in ("assign", "assignop") and hirq.render(hirq.strip(st["l"])) == "channel_index"]
-            if not adv or not any(st.get("k") == "if" and "encoded_sample" in hirq.render(st["c"]) for st in stmts + ([lp["e"]] if lp.get("e") else [])):
+            items = stmts + ([lp["e"]] if lp.get("e") else [])
+            # the channel cursor: the local advanced cyclically at this level (`ch = (ch + 1) % channel_count`), whatever it is called
+            chan = None
+            for st in stmts:
+                if st.get("k") == "assign" and hirq.strip(st["l"]).get("k") == "path":
+                    nm_ = hirq.strip(st["l"])["res"].get("local")
+                    r0 = hirq.strip(st["r"])
+                    if nm_ and r0.get("k") == "bin" and r0["op"] == "%" and re.search(r"\b%s\b" % re.escape(nm_), hirq.render(r0["l"])) and "+" in hirq.render(r0["l"]):
+                        chan = nm_
+            if chan is None:
                 continue
-            chain = next((st for st in stmts + ([hirq.strip(body_).get("e")] if hirq.strip(body_).get("e") else []) if st and st.get("k") == "if" and "encoded_sample" in hirq.render(st["c"])), None)
+
+            def emits_(n_):
+                return any((c.get("fn") or "").endswith("write_sample") or (c.get("k") == "mcall" and c["m"] in ("push", "extend_from_slice") and "output" in hirq.render(c["recv"])) for c in hirq.walk(n_) if c.get("k") in ("call", "mcall"))
+            # the per-byte decision: the first if-chain / match at this level with an arm that emits a sample
+            chain = next((st for st in items if st and st.get("k") in ("if", "match") and emits_(st)), None)
+            if chain is None:
+                continue
             arms = []
-            n = chain
+            if chain.get("k") == "match":
+                for a_ in chain["arms"]:
+                    arms.append((hirq.render_pat(a_["pat"])[:40], a_["body"]))
+            n = chain if chain.get("k") == "if" else None
             while n is not None and n.get("k") == "if":
                 arms.append((hirq.render(n["c"])[:40], n["then"]))
                 e = n.get("else")
@@ -774,7 +791,7 @@ def run(ctx):
                 n_arms += 1
                 emits = any((c.get("fn") or "").endswith("write_sample") or (c.get("k") == "mcall" and c["m"] in ("push", "extend_from_slice") and "output" in hirq.render(c["recv"])) for c in hirq.calls(arm)) or \
                     any(c.get("k") == "mcall" and c["m"] in ("push", "extend_from_slice") and "output" in hirq.render(c["recv"]) for c in hirq.walk(arm))
-                restores = any(x.get("k") in ("assign", "assignop") and hirq.render(hirq.strip(x["l"])) == "channel_index" for x in hirq.walk(arm))
+                restores = any(x.get("k") in ("assign", "assignop") and hirq.render(hirq.strip(x["l"])) == chan for x in hirq.walk(arm))
                 if emits != restores:
                     ctx.ok(R_adp, {"arm": label, "emits_sample": emits, "restores_channel": restores})
                 else:
